@@ -23,3 +23,41 @@ claim("C08", module="props.c08", category="proof",
       note=PROOF_NOTE + "; the 'consequently Hoelder' sentence is not machine-checked (stated in evidence.assumptions)",
       technique="contract-based deductive verification: 2-run product (relational) invariants over the real loop body, z3",
       design_ref="DESIGN.md 5.C08")
+
+claim("C09", module="props.c09", category="proof",
+      text="Deductive proof, unbounded in m and in the box, N in 1..5: contracts on __CalculateNumbr (exact inverse of the "
+           "node table), __GetXonY (loop invariant: result = gidx/D^m, residual <= half a cell), __TransformD2P, "
+           "GetInverseImage and GetPreimages; a lock-step product of the inverse loop with the forward loop (R3) shows "
+           "that the forward cell of the returned subinterval contains y; with the injectivity R01 and a small "
+           "arithmetic lemma this gives inverse(image(x)) = floor(x*D^m)/D^m. N=1: both maps affine, mutually inverse.",
+      note=PROOF_NOTE, technique="contract-based deductive verification: loop invariants + lock-step product of two loops, z3",
+      design_ref="DESIGN.md 5.C09")
+claim("C17", module="props.c17", category="proof",
+      text="Frame, freshness and ownership obligations on every public Evolvent method (GetImage, GetInverseImage, "
+           "GetPreimages, SetBounds, __init__) and their callees, N in 1..5, m/box/arguments symbolic: results are freshly "
+           "allocated, arguments are unchanged, only self.yValues (and fresh storage) is written, SetBounds stores owned "
+           "copies; history independence through the product invariants R01 (forward) and R4 (inverse) proved from "
+           "arbitrary object states.",
+      note=PROOF_NOTE + "; the step from per-method frames to 'for every interleaved call sequence' is the frame rule",
+      technique="contract-based deductive verification: frame/freshness/ownership conditions + 2-run product invariants, z3",
+      design_ref="DESIGN.md 5.C17")
+claim("C12", module="props.c12", category="proof",
+      text="Freshness/ownership post-conditions proved for every constructor of the solver object graph (Solver, "
+           "SearchData, Solution, Evolvent, OptimizationTask, Method, Process, SearchDataItem, CharacteristicsQueue, Trial, "
+           "Point, FunctionValue) with CPython default-argument semantics modelled (a mutable default is one shared "
+           "pre-existing object), frames 'constructor writes only its own object', plus syntactic obligations that the "
+           "footprint classes hold no class-level/module-level mutable state. Non-interference of interleaved solvers is "
+           "then the frame rule.",
+      note=PROOF_NOTE + "; per-method frames of Method/Process/SearchData are discharged under the checks of C06/C19/C02; "
+           "DEPQ constructor contract assumed",
+      technique="contract-based deductive verification: freshness/ownership post-conditions and frame conditions, z3",
+      design_ref="DESIGN.md 5.C12")
+claim("C20", module="props.c20", category="proof",
+      text="Solver.__init__ is proved (against the contracts of the constructors it calls) to store "
+           "parameters.evolventDensity, the problem dimension and copies of the bounds in the Evolvent that it hands to "
+           "Method and Process; GetImage's proved post-condition gives trial coordinates lower+(k+1/2)(upper-lower)/2^m with "
+           "m that stored density (N in 2..5, m and box symbolic); a frame obligation shows nothing reassigns the density.",
+      note=PROOF_NOTE + "; 'every trial point is GetImage(x)' is the post-condition of Method.FirstIteration/"
+           "CalculateIterationPoint verified under C02/C06",
+      technique="contract-based deductive verification: constructor post-conditions chained with the evolvent contracts, z3",
+      design_ref="DESIGN.md 5.C20")
